@@ -2,7 +2,7 @@
    implementation's observations reflects it, and the proof that the model's own run satisfies it for
    every input (every digest function, oracle and schedule). *)
 From Coq Require Import Arith NArith List Ascii String Bool Lia Permutation.
-From AV Require Import lib.Str model.C11_model model.C11_run proofs.C11_proofs.
+From AV Require Import lib.Str model.KC_discover model.C11_model model.C11_run proofs.KC_discover_proofs proofs.C11_proofs.
 Import ListNotations.
 Local Open Scope nat_scope.
 
@@ -183,8 +183,16 @@ Proof.
       * specialize (Hov eq_refl). destruct Hov as (A & B & C). rewrite A, B, C. reflexivity.
 Qed.
 
-Corollary spec_b_reflects c : spec_b c = true <-> Spec (gin_of (c_in c)) (c_obs c).
-Proof. apply gspec_b_reflects. Qed.
+(* the whole judgement of a case: the Put specification, and the discovery specification of the list in force
+   (proofs/KC_discover_proofs.v: RootsSpec) for the root maps read back from the client *)
+Definition DiscSpec (i : cin) (o : obs) : Prop :=
+  NoDup (map d_uuid (current_list (i_lists i))) ->
+  RootsSpec (current_list (i_lists i)) (ob_local o) (ob_writable o) (ob_gateway o).
+
+Corollary spec_b_reflects c : spec_b c = true <-> Spec (gin_of (c_in c)) (c_obs c) /\ DiscSpec (c_in c) (c_obs c).
+Proof.
+  unfold spec_b, disc_spec_b, DiscSpec. rewrite andb_true_iff, gspec_b_reflects, roots_spec_b_reflects. reflexivity.
+Qed.
 
 (* ------------------------------------------------------------------ the model meets the specification *)
 (* what the model's run looks like to an observer: one request per started upload *)
@@ -193,7 +201,9 @@ Definition req_of (i : gin) (x : nat) : oreq :=
      q_body := if (exp_len i =? 0)%N then EmptyString else g_data i |}.
 Definition obs_of_run (i : gin) (r : run) : obs :=
   {| ob_steps := r_steps r; ob_extra := []; ob_res := r_res r;
-     ob_reqs := map (req_of i) (flat_map st_started (r_steps r)); ob_returned := true; ob_sync := true |}.
+     ob_reqs := map (req_of i) (flat_map st_started (r_steps r)); ob_returned := true; ob_sync := true;
+     (* the root maps are judged by DiscSpec, not by Spec *)
+     ob_local := []; ob_writable := []; ob_gateway := [] |}.
 
 Lemma sv_of_nodup i : NoDup (g_order i) -> NoDup (sv_of i).
 Proof. intros H. unfold sv_of, put_order. apply NoDup_filter. exact H. Qed.
@@ -423,7 +433,8 @@ Proof.
 Qed.
 
 Definition example_in : cin :=
-  {| i_svcs := [K "k0" 25107 false "disk" false; K "k1" 25107 false "disk" false; K "k2" 25107 false "disk" true];
+  {| i_lists := [[D "u0" "k0" 25107 false "disk" true]; (* an earlier list: forgotten *)
+                 [D "u0" "k0" 25107 false "disk" false; D "u1" "k1" 25107 false "disk" false; D "u2" "k2" 25107 false "disk" true]];
      i_order := [2; 1; 0]; i_want := 2; i_retries := 1; i_entry := EPutHB; i_hash := "h"; i_data := "abc"; i_nbytes := 3;
      i_md5 := "h";
      i_table := [[Resp 200 None "+A0"; Resp 200 None "+A0"]; [Resp 200 (Some 1) "+A1"; Resp 200 (Some 1) "+A1"]; []];
